@@ -99,3 +99,23 @@ PROPS["C17"] = dict(
     trusted_base=BASE,
     assumptions=[],
 )
+
+
+A3 = "A3: C pointers are (object, offset) in a flat 64-bit address space; every object satisfies 0 < addr and addr + size <= 2^47, so `pos + len > end` style comparisons are evaluated as the target evaluates them and their non-wrapping is proved, not assumed"
+A4 = "A4: AEAD objects use stream-mode AEAD ciphers (EVP block size 1: the names in quic/crypto.py CIPHER_SUITES); header-protection ciphers have block size <= 16"
+CSEM = "cwp's encoding of C (DESIGN §2.2): the clang JSON AST of the real file after preprocessing with the real Python.h / OpenSSL headers; integers are bit-vectors of their LP64 width, implicit conversions executed as recorded in the AST, signed overflow / out-of-range shifts / out-of-bounds or NULL accesses are proof obligations, loops unrolled with an unwinding obligation"
+CSTUBS = "trusted C contracts (engine/cwp/stubs.py): PyArg_ParseTuple[AndKeywords] by format string (y# gives len >= 0 bytes plus a NUL; n/I/K/B/H deliver ANY value of their width, no overflow check), PyBytes_FromStringAndSize, Py_BuildValue, PyLong_From*, PyErr_*, malloc (success implies size <= 2^47)/free/memcpy/memset/memcmp, OpenSSL EVP_* with the extents of EVP_EncryptInit(3): EVP_CipherUpdate writes at most inl + block_size - 1 bytes, GET_TAG writes and SET_TAG reads `arg` bytes, CipherInit reads key_len / iv_len bytes"
+CB = "_buffer.c::Buffer_"
+CC = "_crypto.c::"
+_BUFFER_FNS = [CB + n for n in ("init", "dealloc", "data_slice", "eof", "pull_bytes", "pull_uint8", "pull_uint16", "pull_uint32", "pull_uint64", "pull_uint_var", "push_bytes", "push_uint8", "push_uint16", "push_uint32", "push_uint64", "push_uint_var", "seek", "tell", "capacity_getter", "data_getter")]
+_CRYPTO_FNS = [CC + n for n in ("AEAD_init", "AEAD_decrypt", "AEAD_encrypt", "HeaderProtection_init", "HeaderProtection_apply", "HeaderProtection_remove")]
+
+PROPS["C04"] = dict(
+    functions=_BUFFER_FNS + _CRYPTO_FNS,
+    bounded=["cbuffer-model", "ccrypto-boundary"],
+    scope="decided for EVERY argument the CPython argument parser can deliver (any Py_ssize_t, any bytes object, any 32/64-bit pattern) and every object state satisfying the class invariant: each function of _buffer.c and each entry point of _crypto.c (create_ctx and HeaderProtection_mask are inlined at their call sites) keeps every load, store, memcpy/memset and every OpenSSL access inside the object it was given or its own scratch arrays, commits no signed overflow or out-of-range shift, returns NULL exactly when a Python exception is set, and re-establishes the class invariant on every exit (Buffer: base is the start of a live allocation, base <= pos <= end inside it; AEAD / HeaderProtection: contexts, key, IV intact) - so oversized, truncated or otherwise unusable input is rejected with an exception and the helper stays usable. Buffer_init ESTABLISHES the invariant for every capacity / data",
+    lemma="C04 = conjunction, over the 26 C functions, of the c-safety obligations (one per memory access / arithmetic operation) and the invariant postconditions; the Python call sites need no precondition because the C functions are total-safe",
+    not_decided="OpenSSL and CPython internals (trusted extents), AEAD_dealloc / HeaderProtection_dealloc (free only), module initialisation; that setup.py compiles exactly these sources",
+    trusted_base=BASE + [CSEM, CSTUBS, A3, A4],
+    assumptions=[A3, A4],
+)
